@@ -21,7 +21,10 @@ Hypothesis inflate_deflate : forall p, inflate (deflate p) = Some p.
 
 (* ------------------------------------------------------------------ CollectJSONStream *)
 
-(* Every input (bytes, possibly cut short by a failing reader), every token limit,
+(* [source parse false ..]: a failing reader fails with an error whose pkg/errors
+   cause is not io.EOF (see C19_wrapped_eof_refuted below).
+
+   Every input (bytes, possibly cut short by a failing reader), every token limit,
    every chunk size, every schedule of the select loop in which the flush timer
    does not fire and the context is not cancelled before the source is exhausted
    ([j_early true true = false]) and that ends the call:
@@ -33,9 +36,9 @@ Hypothesis inflate_deflate : forall p, inflate (deflate p) = Some p.
    - or some line is malformed, some line reaches the token limit, or the reader
      failed; then the call returns an error. *)
 Theorem C19_json : forall parse limit inp rerr ls e n evs s r,
-  (forall l, parse l <> PBad true) -> 1 <= n < 2 ^ 31 ->
+  1 <= n < 2 ^ 31 ->
   scan limit inp rerr = (ls, e) -> docs_ok KDyn (parsed parse ls) ->
-  let init := j_init true n (source parse limit inp rerr) in
+  let init := j_init true n (source parse false limit inp rerr) in
   j_run deflate init evs = Some s -> j_res s = Some r -> j_early deflate true true init evs = false ->
   (e = ScanEof /\ Forall2 (fun l d => parse l = PDoc d) ls (parsed parse ls) /\
    exists out dec, r = JOk out /\ decode_ftdc inflate None out = Some dec /\
@@ -47,10 +50,10 @@ Proof. exact (json_total_input deflate inflate inflate_deflate). Qed.
    that the dynamic collector refused a document, and then the call returns that
    error (observed: {"a":1} followed by {"a":1.5}) — never a shortened result. *)
 Theorem C19_json_refusal : forall parse limit inp rerr ls e n evs s r,
-  (forall l, parse l <> PBad true) -> 1 <= n < 2 ^ 31 ->
+  1 <= n < 2 ^ 31 ->
   scan limit inp rerr = (ls, e) ->
   (forall d, In d (parsed parse ls) -> doc_wf d) -> distinguishable KDyn (fun d => In d (parsed parse ls)) ->
-  let init := j_init true n (source parse limit inp rerr) in
+  let init := j_init true n (source parse false limit inp rerr) in
   j_run deflate init evs = Some s -> j_res s = Some r -> j_early deflate true true init evs = false ->
   (e = ScanEof /\ exists docs, Forall2 (fun l d => parse l = PDoc d) ls docs /\
      ((exists out dec, r = JOk out /\ decode_ftdc inflate None out = Some dec /\
@@ -65,8 +68,8 @@ Proof. exact (json_refusal_input deflate inflate inflate_deflate). Qed.
    a returned [JOk out] is the flush of a collector into which ALL lines went, in
    order, every Add succeeding. *)
 Theorem C19_json_never_short : forall parse limit inp rerr ls e n evs s out,
-  (forall l, parse l <> PBad true) -> scan limit inp rerr = (ls, e) ->
-  let init := j_init true n (source parse limit inp rerr) in
+  scan limit inp rerr = (ls, e) ->
+  let init := j_init true n (source parse false limit inp rerr) in
   j_run deflate init evs = Some s -> j_res s = Some (JOk out) -> j_early deflate true false init evs = false ->
   e = ScanEof /\ exists docs c, Forall2 (fun l d => parse l = PDoc d) ls docs /\
     fed (dy_new n) docs c /\ JOk out = j_flush deflate c.
@@ -75,9 +78,9 @@ Proof. exact (json_never_short_input deflate). Qed.
 (* The hypothesis on the schedule is satisfiable from every input: the loop is
    live (one event per item of the source and one more end the call). *)
 Theorem C19_json_live : forall parse limit inp rerr n,
-  let init := j_init true n (source parse limit inp rerr) in
+  let init := j_init true n (source parse false limit inp rerr) in
   exists evs s, j_run deflate init evs = Some s /\ j_res s <> None /\ j_early deflate true true init evs = false /\
-                (length evs <= S (length (source parse limit inp rerr)))%nat.
+                (length evs <= S (length (source parse false limit inp rerr)))%nat.
 Proof. exact (json_live_input deflate). Qed.
 
 (* ------------------------------------------------------------------ CollectRuntime *)
@@ -114,7 +117,7 @@ Theorem C19_runtime_ids : forall gen,
   (forall i t, 0 <= i < 2 ^ 63 -> sample_id (strip_doc (gen i t)) = Some i) ->
   forall ts, Z.of_nat (length ts) <= 2 ^ 63 ->
   map (fun d => sample_id (strip_doc d)) (gens gen 0 ts) = map Some (zseq 0 (length ts)).
-Proof. intros gen H ts Hb. apply (sample_ids_gens gen H ts 0); [apply Z.le_refl|exact Hb]. Qed.
+Proof. exact sample_ids_gens0. Qed.
 
 (* an option set Validate refuses: an error, and no file is created *)
 Theorem C19_runtime_invalid : forall gen o evs s,
@@ -154,15 +157,26 @@ Print Assumptions C19_scanner.
    no cancellation, the timer fires after the first document: the call returns a
    nil error and bytes that decode to one sample. *)
 Theorem C19_timer_refuted :
-  let items := script wit_parse wit_lines ScanEof in
+  let items := script wit_parse false wit_lines ScanEof in
   let evs := [EvDoc 0; EvTimer] in
-  (forall l, wit_parse l <> PBad true) /\
   (exists docs, Forall2 (fun l d => wit_parse l = PDoc d) wit_lines docs /\ length docs = 3%nat) /\
   j_early deflate_flag false true (j_init true 5 items) evs = false /\
   exists s out, j_run deflate_flag (j_init true 5 items) evs = Some s /\ j_res s = Some (JOk out) /\
     option_map dc_docs (decode_ftdc inflate_flag None out) = Some [wit_doc 49].
 Proof. exact json_timer_refuted. Qed.
 Print Assumptions C19_timer_refuted.
+
+(* the select loop still takes an error whose cause is io.EOF for the end of the
+   input.  Parse errors are sent as new errors and the scanner's own errors are
+   never io.EOF, so only a reader that fails with a (pkg/errors-)wrapped io.EOF
+   can reach that branch: the call then returns a nil error although the reader
+   failed.  Hence the [false] in the theorems above. *)
+Theorem C19_wrapped_eof_refuted :
+  let items := script wit_parse true [[49]%N] ScanReadErr in
+  items = [IDoc (wit_doc 49); IErr (SRead true)] /\
+  x_json_run true 5 items [EvDoc 0; EvErr] = JObsOk [wit_doc 49] [1].
+Proof. exact json_wrapped_eof_refuted. Qed.
+Print Assumptions C19_wrapped_eof_refuted.
 
 (* non-vacuity.  JSON: the scanner on \r\n, an empty line, an unterminated last
    line and a line at the limit; three parsable lines satisfy C19_json's
@@ -172,12 +186,11 @@ Print Assumptions C19_timer_refuted.
    and a run with 13 samples, an idle flush and a final flush: files
    [0..11 in chunks 10+2], [12], [] *)
 Example C19_example_json :
-  (forall l, wit_parse l <> PBad true) /\
   scan 8 [49; 13; 10; 50; 10; 10; 51]%N false = ([[49]; [50]; []; [51]]%N, ScanEof) /\
   scan 8 [49; 10; 50; 50; 50; 50; 50; 50; 50; 50; 10; 51]%N false = ([[49]]%N, ScanTooLong) /\
   docs_ok KDyn (parsed wit_parse wit_lines) /\
-  x_json_calm true 2 (script wit_parse wit_lines ScanEof) = JObsOk [wit_doc 49; wit_doc 50; wit_doc 51] [2; 1] /\
-  x_json_calm true 2 (script wit_parse [[49]; []; [51]]%N ScanEof) = JObsErr (JSrc (SParse false)).
+  x_json_calm true 2 (script wit_parse false wit_lines ScanEof) = JObsOk [wit_doc 49; wit_doc 50; wit_doc 51] [2; 1] /\
+  x_json_calm true 2 (script wit_parse false [[49]; []; [51]]%N ScanEof) = JObsErr (JSrc SParse).
 Proof. exact json_example. Qed.
 
 Example C19_example_runtime :
